@@ -4,7 +4,8 @@
 (* real pymbolic (harness/c01drv.py) is replayed through the C01_Objects   *)
 (* state machine: one TLC step per recorded event, the event must be       *)
 (* allowed by Check in the model state reached so far (Immutable,          *)
-(* HashStable, EqIsPyEq, NeIsNotPyEq, DictFindsEqual, HashRespectsEq, ...) *)
+(* HashStable, EqIsPyEq, NeIsNotPyEq, DictFindsEqual, HashRespectsEq,      *)
+(* CopyKeepsFields, BuiltHashable, BuiltAsGiven ...)                       *)
 (* and the successor state is Post.  The step relation is total: the       *)
 (* first clause a trace contradicts becomes its verdict and the trace      *)
 (* stops; every trace ends with exactly one printed verdict line.          *)
@@ -76,6 +77,9 @@ Report ==
                           \* how the compared / looked-up objects came to be here ("" = built here)
                           via |-> { arrival[k] : k \in { k2 \in 1..Len(arrival) :
                                        k2 \in {ev.i, ev.j} \/ ev.op \notin {"Eq", "Ne"} } } \ {""},
+                          \* a New event: the class that was built and the forms its mappings were given in
+                          cls0 |-> IF ev.op = "New" /\ ev.spec.t = "N" THEN ev.spec.cls ELSE "",
+                          forms |-> IF ev.op = "New" THEN FormsIn(ev.spec) ELSE {},
                           ci |-> ClsOf(ev.i), cj |-> ClsOf(ev.j),
                           tmpl |-> IF ClsOf(ev.i) = "" THEN "" ELSE TmplOf(ClsOf(ev.i)),
                           own |-> IF ClsOf(ev.i) # "" /\ ev.fn # ""
